@@ -167,7 +167,9 @@ def mixture_preconditions(ctx, rule='C08-R2'):
     gm = [e for e in evs if e.kind == 'call' and call_head(e) == 'sklearn.mixture.GaussianMixture']
     ctx.floor(rule, 'GaussianMixture constructions', len(gm), 1)
     # (b) call sites: at least 30 valid points and more than one distinct value, component cap
-    for caller, e in fx.sites.get(ncomp, []):
+    sites = fx.deep_sites(ncomp)
+    ctx.floor(rule, 'call sites of ncomp_from_gmm seen from the stage methods', len(sites), 1)
+    for caller, e in sites:
         lits = guard_literals(e.guard)
         vals = e.call[2][0] if e.call[2] else None
         enough = any(tag(l) == 'cmp' and l[1] == 'le' and T.is_const(l[2]) and l[2][1] >= 2
